@@ -117,6 +117,16 @@ let handle (line : string) : string =
       let size = bitpacked_base_size (z_of_int n) max_vocab quant in
       let vals = List.map (fun r -> match String.split_on_char ':' r with [p; _] -> hex_of_z (z_of_hex p) | _ -> "?") recs in
       String.concat " " ((hex_of_z size ^ " guard-ok") :: vals)
+  | "TM" :: _kind :: _bb :: _mv :: _qb :: recs ->
+      (* an array of (word, payload, next pointer) records is an array: record i reads back its payload, its index and the
+         child range [sum of children before i, that + children i) -- whatever the pointer compression (specification level;
+         the compression itself is modelled and proved in coq/C03/BhikshaModel.v) *)
+      let ix s = int_of_string ("0x" ^ s) in
+      let _, _, out = List.fold_left (fun (i, start, acc) r ->
+          match String.split_on_char ':' r with
+          | [_w; p; c] -> (i + 1, start + ix c, Printf.sprintf "%x:%x:%x:%x" (ix p) i start (start + ix c) :: acc)
+          | _ -> (i + 1, start, "?" :: acc)) (0, 0, []) recs in
+      String.concat " " ("guard-ok" :: List.rev out)
   | _ -> "?"
 
 let () = each_line handle
